@@ -42,7 +42,9 @@ SW, SP, MO = PKG + 'switch_experimenter', PKG + 'sparse_experimenter', PKG + 'mu
 
 ASSUMPTIONS = [
     'BaseContract is assumed for the wrapped experimenter (opaque class): see the module docstring of contracts/c20.py',
-    'batches contain pairwise distinct, already constructed Trial objects; every Trial owns its final_measurement object',
+    'batches contain pairwise distinct, already constructed Trial objects; every Trial owns its final_measurement object and its '
+    'ParameterDict object (object identity of parameter dicts is modelled: `old = trial.parameters` is a reference, in-place item '
+    'assignment is seen through every alias, `trial.parameters = x` / ParameterDict(x) / copy.deepcopy build fresh objects)',
     'floats are extended reals fin(r)|+inf|-inf|nan; negation and comparisons are exact; + - * / on finite values are mathematical '
     '(machine arithmetic treated as mathematical: no rounding, no overflow), the sign of zero is not modelled',
     'strings are an uninterpreted sort with equality; str.startswith and string concatenation are uninterpreted functions',
